@@ -82,6 +82,11 @@ class odict(dict):
         dict.__delitem__(self, key)
         self._keys.remove(key)
 
+    def __ior__(self, other):
+        """ x |= other is x.update(other)"""
+        self.update(other)
+        return self
+
     def __iter__(self):
         """ iter(x)"""
         for key in self._keys:
